@@ -226,6 +226,21 @@ def gen_lists(r, i):
     return c
 
 
+def gen_batch(r, i):
+    """the aio under test SLEEPS and expires in the same pass of the expire thread as other operations that are not
+    sleeps (auxiliary receives with the same deadline, started first: their cancel functions run with the queue lock
+    dropped), while another thread cancels / aborts / closes it: the sleep must complete exactly once"""
+    t = r.choice([5, 11, 21])
+    c = Case("pull", tag="batch")
+    # S submits everything (the auxiliary receives first: they stand in front of the sleep on the expire list) and ends;
+    # B lets the deadline pass, yields a few times (the expire thread takes its batch and drops the lock for the first
+    # cancel function) and then cancels the sleep; U waits for the outcome
+    s_ = [f"xrcvt:0:{t}"] + ([f"xrcvt:1:{t}"] if r.chance(2, 3) else []) + [f"slp:{t}"]
+    b = ["jn:S", f"adv:{t + r.choice([1, 1, 2])}"] + ["y"] * r.range(2, 8) + [r.choice(["can", "can", "abt:3", "cls"])]
+    c.actors = [("S", s_), ("B", b), ("U", ["jn:B", "wt"])]
+    return c
+
+
 def gen_oneshot(r, i):
     """nng_aio_set_expire is one-shot (nni_aio_finish_impl clears a_use_expire): an operation that used an absolute
     expiry completes through the provider (or synchronously, or by its expiry), and the NEXT operation on the same aio is
@@ -272,6 +287,8 @@ def gen_oneshot(r, i):
 def gen_any(r, i):
     if i % 16 == 14:
         return gen_oneshot(r, i)
+    if i % 16 == 6:
+        return gen_batch(r, i)
     k = i % 8
     if k in (3, 7):
         return gen_ext(r, i)
